@@ -24,16 +24,16 @@ def canon_atom(a, keep_fp=False, keep_deps=False, keep_sg=False):
     if tag in ('X', 'T', 'P', 'F'):
         return map_deps(a, _depf(keep_deps))
     if tag in ('Mean', 'Sum'):
-        return (tag, a[1], canon(a[2], keep_fp, keep_deps))
+        return (tag, a[1], canon(a[2], keep_fp, keep_deps, keep_sg))
     if tag in ('Abs', 'Inv'):
-        return (tag, canon(a[1], keep_fp, keep_deps))
+        return (tag, canon(a[1], keep_fp, keep_deps, keep_sg))
     if tag == 'Log':
-        return ('Log', canon_atom(a[1], keep_fp, keep_deps))
+        return ('Log', canon_atom(a[1], keep_fp, keep_deps, keep_sg))
     return a
 
 
-def canon(p, keep_fp=False, keep_deps=False):
-    return p.map_atoms(lambda a: canon_atom(a, keep_fp, keep_deps))
+def canon(p, keep_fp=False, keep_deps=False, keep_sg=False):
+    return p.map_atoms(lambda a: canon_atom(a, keep_fp, keep_deps, keep_sg))
 
 
 def canon_at(v, **kw):
